@@ -347,9 +347,14 @@ func (h *Handler) getStream(sid string) (*Conn, bool) {
 	return conn, ok
 }
 
-func (h *Handler) rmStream(sid string) {
+// rmStream forgets conn. A session ID may have been reused for a newer stream
+// in the meantime (the peer can open one as soon as it has seen our close
+// request): that stream is not ours to remove.
+func (h *Handler) rmStream(sid string, conn *Conn) {
 	h.mu.Lock()
 	defer h.mu.Unlock()
 
-	delete(h.streams, sid)
+	if h.streams[sid] == conn {
+		delete(h.streams, sid)
+	}
 }
